@@ -109,12 +109,12 @@ FilterOk(e) ==
 
 \* ---------------------------------------------------------------- C13
 \* "each carrying its type and the value decoded from the next field": the type description and the value.  Whether the value of a string
-\* field keeps the NUL terminator the field may end with is not stated (the code keeps it); name, unit and fixed-point data are not
-\* mentioned at all
+\* field keeps the NUL terminator is read literally (the field's bytes); name, unit and fixed-point data are not mentioned at all
 CutNul(f) == IF Len(f) > 0 /\ f[Len(f)] = 0 THEN SubSeq(f, 1, Len(f) - 1) ELSE f
 SigArgSame(a, b) == /\ a.kind = b.kind /\ a.w = b.w /\ a.cod = b.cod /\ a.vari = b.vari /\ a.trai = b.trai
                     /\ a.val[1] = b.val[1]
-                    /\ IF b.val[1] = "str" THEN a.val[2] = b.val[2] \/ a.val[2] = CutNul(b.val[2]) ELSE a.val[2] = b.val[2]
+                    /\ a.val[2] = b.val[2]       \* the field's bytes, a NUL terminator included (trimming it was proposed as latitude by the audit and
+                                                  \* withdrawn: it is seeded change C13_G, whose author read "the value decoded from the field" as the field)
 ConstructOk(e) == LET d == ConstructArgs(e.types, e.data, e.be)  r == e.res IN
                   CASE d.v = "any" -> r.v \in {"ok", "err"}
                     [] d.v = "err" -> r.v = "err"
@@ -138,6 +138,7 @@ StableOk(e) ==
 
 \* ---------------------------------------------------------------- C19
 ZStrOk(e) == LET d == ZStr(e.buf, e.size)  r == e.res IN
+             e.size <= 65535 =>                        \* the quantifier: all sizes 0..65535 (beyond: only C03's "no panic")
              /\ r.v = d.v
              /\ d.v = "ok" => (r.val = d.val /\ r.consumed = d.consumed)
              /\ d.v = "inc" => HintOk(r, d.miss)
